@@ -10,6 +10,7 @@ package oracle
 //@ func (AppModule).EndBlock
 //@   flag noframe
 //@   flag pure=GetCaches,GetValidatorUpdates,GetAggregatorContext,Logger,FromTmProtoPublicKey,Address,NewInt,Info,BlockHeight,GetValidators,Join,GetUpdatedFeederIDs
+//@   flag havoc=GrowRoundID,RemoveNonceWithFeederIDForValidators,AddZeroNonceItemWithFeederIDForValidators,PrepareRoundEndBlock,SetParams,EmitEvent,ResetAggregatorContextCheckTx,ResetUpdatedFeederIDs
 //@   before[C12.eb.fresh] GetCache requires !defined(res_SealRound_0) ==> ghost(cacheAdds) == old(ghost(cacheAdds)) + 1
 //@ loop #1
 //@   invariant true
